@@ -180,7 +180,8 @@ def execute(scn):
             j = len(script)
             empties = all(a in ('nothing',) for a in acts)
             invalids = all(a in ('wrong_unit',) for a in acts)
-            if j <= retries and ((empties and kw.get('retry_on_empty')) or (invalids and kw.get('retry_on_invalid'))):
+            if j <= retries and ((empties and kw.get('retry_on_empty')) or (invalids and kw.get('retry_on_invalid'))) \
+                    and not cc.leftover_input(res, call):
                 ok, why = cc.values_match(op, r)
                 if not ok:
                     add('retry-not-honoured', 'call %d: %d %s repl%s then a valid reply within the budget (retries=%d, '
@@ -195,9 +196,11 @@ def execute(scn):
             ok, why = cc.values_match(op, r)
             if not ok:
                 pa = prior_acts(ops, call['index'])
-                add('no-recovery', 'healthy follow-up (%s) after script %s returned %s: %s'
-                    % (op['fn'], '+'.join(pa) or 'none', type(r).__name__, why),
-                    after='+'.join(sorted(set(pa))) or 'none', got=type(r).__name__)
+                left = cc.leftover_input(res, call)
+                add('no-recovery', 'healthy follow-up (%s) after script %s returned %s: %s%s'
+                    % (op['fn'], '+'.join(pa) or 'none', type(r).__name__, why,
+                       ' [unconsumed input from earlier transactions was pending on the link]' if left else ''),
+                    leftover_input=left, got='error' if cc.is_error_object(r) else 'foreign-reply')
     for a in acts_all:
         if a not in ('reply',):
             out['faults'][a] = out['faults'].get(a, 0) + 1
